@@ -65,6 +65,9 @@ def oracle(case):
         if path == "direct":
             d = JC.dump(v, config=cfg)
             backs.append(("load(dump(x))", JC.load(d, cfg.classes)))
+            # the dumped structure is data: loading it again gives the same object again
+            backs.append(("second load of the same dumped structure", JC.load(d, cfg.classes)))
+            backs.append(("load(dump(x)) once more", JC.load(JC.dump(v, config=cfg), cfg.classes)))
         elif path == "text":
             d = JC.dump(v, config=cfg)
             text = json.dumps(d)
@@ -112,7 +115,7 @@ def oracle(case):
                  {"value": repr(v)[:300], "stats": stats})
     nt = stats["depth"] >= 2 or stats["local"] or stats["inherit"] or stats["serial"] or path.startswith("rpc")
     classes = ["path:" + path, "where:" + where, "depth:%d" % min(stats["depth"], 4)]
-    for k in ("local", "inherit", "serial", "enum", "decimal", "bean_in_field", "homonyms"):
+    for k in ("local", "inherit", "serial", "enum", "decimal", "bean_in_field", "homonyms", "extras"):
         if stats[k]:
             classes.append(k)
     if not stats["beans"] and not stats["enum"] and not stats["decimal"]:
